@@ -316,9 +316,20 @@ def mean_polynomial(ctx, fq, sample="self"):
     f = ctx.fn(fq)
     env = single_defs(f.node)
     if fq.endswith("_reconstruct_Mu"):
-        tgt = [n for n in walk_own(f.node) if isinstance(n, ast.Assign) and U(n.targets[0]) == "self.Mu" and not isinstance(n.value, ast.Call)]
-        ctx.need(len(tgt) == 1, f"{f.site()}: self.Mu assignment not found")
-        e = inline(tgt[0].value, env)
+        from engine.astutil import inline_calls
+        tgt = [n for n in walk_own(f.node) if isinstance(n, ast.Assign) and U(n.targets[0]) == "self.Mu"]
+        # the unclipped definition: `self.Mu = E` (a later `self.Mu = np.clip(self.Mu, ..)` bounds it), or `E if not clip else np.clip(E, ..)`
+        cands = []
+        for n in tgt:
+            v = n.value
+            arms = [v.body, v.orelse] if isinstance(v, ast.IfExp) else [v]
+            for a in arms:
+                a = inline_calls(inline(a, env), ctx.R, f.mod, class_q=f.class_q)
+                if isinstance(a, ast.Call) and call_name(a) == "np.clip":
+                    continue
+                cands.append(a)
+        ctx.need(len(cands) == 1, f"{f.site()}: self.Mu assignment not found")
+        e = cands[0]
     else:
         # the linear-predictor return: the one without the logistic squashing
         r = [inline(x.value, env) for x in returns(f.node) if x.value is not None]
@@ -417,18 +428,43 @@ def r6(ctx):
         ctx.functions.add(f.qname)
         g = CFG(f.node)
         gamma_stores = {}
+        fenv = single_defs(f.node)
+
+        def has_gamma(e):
+            return any(isinstance(x, ast.Call) and attr_tail(x) == "gamma" for x in ast.walk(e))
         for n in g.stmts(ast.Assign):
             st = n.stmt
             t = st.targets[0]
-            if isinstance(st.value, ast.Call) and attr_tail(st.value) == "gamma" and isinstance(t, (ast.Attribute, ast.Subscript)):
+            if not has_gamma(st.value):
+                continue
+            if isinstance(t, (ast.Attribute, ast.Subscript)):
                 base = t if isinstance(t, ast.Attribute) else t.value
                 if isinstance(base, ast.Attribute) and U(base.value) == "self":
                     gamma_stores.setdefault(base.attr, []).append(n)
+            elif isinstance(t, ast.Name):
+                # a draw held in a local: it belongs to the attribute it is (clipped and) stored into
+                for n2 in g.stmts(ast.Assign):
+                    t2 = n2.stmt.targets[0]
+                    if isinstance(t2, ast.Attribute) and U(t2.value) == "self" and t.id in names_in(n2.stmt.value):
+                        gamma_stores.setdefault(t2.attr, []).append(n)
         for attr, nodes in sorted(gamma_stores.items()):
             # derived precision: gam -> tau = cumprod(gam): the clipped quantity is tau
             clip_attr = "tau" if attr == "gam" else attr
+
+            def clipped_value_ok(v):
+                """the value being clipped is the attribute itself, the gamma draw (directly or through a local), or for the
+                multiplicative process cumprod(gam)"""
+                vv = inline(v, fenv)
+                t_ = U(vv).replace(" ", "")
+                if t_ == f"self.{clip_attr}" or U(v) == f"self.{clip_attr}":
+                    return True
+                if isinstance(vv, ast.Call) and attr_tail(vv) == "gamma":
+                    return True
+                if isinstance(v, ast.Name) and any(isinstance(x.stmt.targets[0], ast.Name) and x.stmt.targets[0].id == v.id for x in nodes):
+                    return True
+                return attr == "gam" and t_ == "np.cumprod(self.gam)"
             clips = [n for n in g.stmts(ast.Assign) if U(n.stmt.targets[0]) == f"self.{clip_attr}" and isinstance(n.stmt.value, ast.Call)
-                     and call_name(n.stmt.value) == "np.clip" and U(n.stmt.value.args[0]) == f"self.{clip_attr}"]
+                     and call_name(n.stmt.value) == "np.clip" and len(n.stmt.value.args) == 3 and clipped_value_ok(n.stmt.value.args[0])]
             good = []
             for c in clips:
                 lo, hi = c.stmt.value.args[1], c.stmt.value.args[2]
@@ -460,11 +496,11 @@ def r6(ctx):
     f = meths["_prec_obs_step"]
     A = all_assigns(f.node)
     env = {k: v[0] for k, v in A.items() if len(v) == 1}
-    draw = [n for n in walk_own(f.node) if isinstance(n, ast.Assign) and U(n.targets[0]) == "self.prec" and isinstance(n.value, ast.Call) and attr_tail(n.value) == "gamma"
-            and "an" in names_in(n.value)]
-    ctx.need(len(draw) == 1, f"{f.site()}: posterior gamma draw not found")
-    shape = inline(draw[0].value.args[0], env)
-    scale = inline(draw[0].value.args[1], env)
+    gcalls = [c for c in calls(f.node) if attr_tail(c) == "gamma" and len(c.args) >= 2]
+    post = [c for c in gcalls if U(inline(c.args[0], env)).replace(" ", "") != "self.a0"]          # the prior arm draws Gamma(a0, 1/b0)
+    ctx.need(len(post) == 1, f"{f.site()}: posterior gamma draw not found")
+    shape = inline(post[0].args[0], env)
+    scale = inline(post[0].args[1], env)
     ok_shape = Nn.n(shape) == Nn.n(parse_expr("self.a0 + 0.5 * self.n_obs()"))
     want_rate = [Nn.n(parse_expr(f"1.0 / (self.b0 + 0.5 * np.square(self.y - self.Mu).sum() + {eps})")) for eps in ("0.001", "0")]
     ctx.check("R6", f"{f.site()}::conjugate-gamma", ok_shape and Nn.n(scale) in want_rate, "prec ~ Gamma(a0 + n/2, rate b0 + SSE/2 (+eps))",
@@ -472,10 +508,10 @@ def r6(ctx):
     f = meths["_prec_W0_step"]
     A = all_assigns(f.node)
     env = {k: v[0] for k, v in A.items() if len(v) == 1}
-    draw = [n for n in walk_own(f.node) if isinstance(n, ast.Assign) and U(n.targets[0]) == "self.tau0" and isinstance(n.value, ast.Call) and attr_tail(n.value) == "gamma"]
-    ctx.need(len(draw) == 1, f"{f.site()}: tau0 gamma draw not found")
-    shape = inline(draw[0].value.args[0], env)
-    scale = inline(draw[0].value.args[1], env)
+    gcalls = [c for c in calls(f.node) if attr_tail(c) == "gamma" and len(c.args) >= 2]
+    ctx.need(len(gcalls) == 1, f"{f.site()}: tau0 gamma draw not found")
+    shape = inline(gcalls[0].args[0], env)
+    scale = inline(gcalls[0].args[1], env)
     ok = Nn.n(shape) == Nn.n(parse_expr("self.a0 + 0.5 * self.n_clines")) and Nn.n(scale) in [Nn.n(parse_expr(f"1.0 / (self.b0 + 0.5 * (self.W0 ** 2).sum() + {eps})")) for eps in ("0.001", "0")]
     ctx.check("R6", f"{f.site()}::conjugate-gamma", ok, "tau0 ~ Gamma(a0 + n_clines/2, rate b0 + sum(W0^2)/2 (+eps))",
               f"intercept scale is drawn with shape `{U(shape)}` and scale `{U(scale)}`")
